@@ -177,6 +177,15 @@ theorem switch_open_time (rem tR tS : ℚ) :
     switchOpenTime ⟨.repair, rem⟩ tR tS = (⟨.repair, rem⟩, 0) := by
   simp [switchOpenTime]
 
+/-- Closing an intelligent switch always closes its disconnector, whatever state the switch is in (a failed one is
+closed by hand and sent to repair; one under repair is closed by the crew and stays under repair). -/
+theorem switch_close_always_closes (s : Dev) (tR : ℚ) :
+    (switchClose s tR).2 = true ∧
+    (s.state = .repair → (switchClose s tR).1 = s) ∧ (s.state = .ok → (switchClose s tR).1 = s) ∧
+    (s.state = .failed → (switchClose s tR).1 = ⟨.repair, tR⟩) := by
+  unfold switchClose
+  cases h : s.state <;> simp
+
 /-- Main controller: hardware failure goes straight to manual repair; a software failure is
 retried, then rebooted, then repaired manually, in that order with the stated delays. -/
 theorem controller_staged (P : CtrlP) (c : Ctrl) (dt : Time) (u1 u2 u3 u4 : ℚ) (hc : c.state = .ok) :
